@@ -508,7 +508,9 @@ def jpeg_bytes(rng, w, h, extra, napp=None):
         ln = rng.randint(2, 40)
         # APPn payload free of 0xFF so that the segment structure is unambiguous
         payload = bytes(b if b != 0xFF else 0x7F for b in rng.randbytes(ln - 2))
-        out += bytes([0xFF, rng.choice([0xE0, 0xE1, 0xE2, 0xDB, 0xFE])]) + struct.pack(">H", ln) + payload
+        # APPn, DQT, COM and the 0xC? markers that are NOT frame headers (DHT, JPG, DAC), DRI
+        out += bytes([0xFF, rng.choice([0xE0, 0xE1, 0xE2, 0xEE, 0xDB, 0xFE, 0xC4, 0xC4, 0xC8, 0xCC, 0xDD])]) + \
+            struct.pack(">H", ln) + payload
     m = rng.choice(SOF_MARKERS)
     out += bytes([0xFF, m]) + struct.pack(">H", 17) + bytes([8]) + struct.pack(">HH", h, w)
     out += bytes([3, 1, 0x22, 0, 2, 0x11, 1, 3, 0x11, 1])
